@@ -111,6 +111,8 @@ def run(ck):
                 ck.note_functions(functions_in_paths(paths))
                 rets = [p for p in paths if p.outcome == "return"]
                 ck.check(bool(rets), "C10.R1", inst + ":returns", f.site(), "the metric never returns: %s" % [str(p.value)[:70] for p in paths][:2], key="C10.R1|%s|%s|never-returns" % (fname, cls))
+                if "bases" in mname and rets:
+                    check_index_truthiness(ck, "C10.R3", inst, f.site(), rets)
                 # every code path returns a number: a feasible path that ends in an error raised by the language itself (a missing
                 # attribute, an index out of range) is a path on which the metric reports nothing
                 for p in paths:
@@ -171,6 +173,21 @@ def run(ck):
             # sum_x t(x) log t(x) - sum_x t(x) log m(x); a sum of an element-wise product of two vectors is their dot product
             want = T.app("matmul", t_, T.app("plog", t_)) - T.app("matmul", t_, T.app("plog", m_))
             got = p.value.term
+            # the trusted logarithm is probs_to_logits: log of the probability clamped at the float64 machine epsilon.  The same written
+            # out by hand is the same; a clamp at any other bound (float32's 1.19e-7, 1e-12, ...) changes KL for legitimate small probabilities
+            EPS64 = T.const(__import__("fractions").Fraction(2.220446049250313e-16))
+
+            def _plog(a):
+                if isinstance(a, T.App) and a.op == "log" and hasattr(a.args[0], "single_atom"):
+                    c_ = a.args[0].single_atom()
+                    if isinstance(c_, T.App) and c_.op == "clamp" and c_.args[1] == EPS64 and (c_.args[2] is None or c_.args[2] == T.ONE - EPS64):
+                        return T.app("plog", c_.args[0])
+                return None
+
+            if got is not None and regularisers(got):
+                got = T.subst(got, _plog)
+                got = unregularised(ck, "C10.R3", "_single_basis_KL", skl.site(), "logarithm argument", got, key="C10.R3|_single_basis_KL|regularised")
+                got = T.subst(got, lambda a: T.app("plog", a.args[0]) if isinstance(a, T.App) and a.op == "log" else None)
             if got == want:
                 ck.ok("C10.R3", "_single_basis_KL = sum t log t - sum t log m", skl.site())
             else:
